@@ -868,7 +868,9 @@ def diff_helper(func, arr, *args, **kwargs):
                 "Quantities with units of Fahrenheit or Celsius "
                 "cannot be multiplied, divided, subtracted or added."
             )
-        ret_units = delta_degC
+        # K-sized differences are reported as delta_degC; any other offset-free
+        # temperature unit (R, mK, delta_degF, ...) already is a difference scale
+        ret_units = delta_degC if u == delta_degC else u
     else:
         ret_units = u
     return func._implementation(np.asarray(arr), *args, **kwargs) * ret_units
